@@ -23,6 +23,7 @@ func init() {
 			"R11.4 secret restoration is complete: every config_util.Secret reachable from config.Config outside scrape_configs (by section and YAML key) must be read by the marshalling function for re-insertion from a field that still holds the secret after config.Load; " +
 			"R11.5 placeholder misplacement: secrets are re-inserted by replacing the first '<key>: <secret>' occurrences in collection order, so the collection order must follow the serialisation order of the sections and no section serialised earlier may contain a Secret under the same YAML key. " +
 			"R11.7 every accepted configuration reaches the injector: the reload callbacks run on every accepting path of ReloadFromRaw, conditional only on its error checks. " +
+			"R11.2 also: the proxy URL is set for every job whenever the inject proxy is configured, under no condition on the job itself; the injector's assignment is replaced as a whole by the map of each update and never merged into. " +
 			"Not decided: validity of the YAML for every configuration.",
 		Assumptions: []string{"go/types and go/ssa are correct", "config_util.Secret marshals as <secret> (reviewed in the pinned prometheus/common)",
 			"HTTPClientConfig.Validate moves bearer_token into authorization.credentials and clears it (reviewed in the pinned prometheus/common; re-derived from its SSA in the thorough tier)"}})
@@ -324,6 +325,49 @@ func runC11(p *engine.Prog, r *engine.Report) {
 			}
 			r.Check(len(probs) == 0, "R11.2-values", "job.ServiceDiscoveryConfigs", "store at "+p.Rel(st.Pos()), "one static config from curTargets[job.JobName]", strings.Join(probs, "; "))
 		}
+	}
+	// ---- R11.2 (proxy): every job goes through the sidecar's proxy whenever one is configured
+	if jobFn != nil {
+		fi := p.Info(jobFn)
+		for _, st := range written["HTTPClientConfig.ProxyURL"] {
+			var probs []string
+			job := rootAllocOf2(st.Addr)
+			jt := fi.T(job).S
+			for _, g := range nonStructural(fi.Guards(st.Block())) {
+				if jt != "" && strings.Contains(g, jt) {
+					probs = append(probs, "the proxy is only set when "+short(g)+" (a property of the job itself): such a job would be scraped past the sidecar")
+				}
+			}
+			r.Check(len(probs) == 0, "R11.2-values", "job.ProxyURL", "store at "+p.Rel(st.Pos()), "set for every job whenever the inject proxy is configured, whatever the job says", strings.Join(probs, "; "))
+		}
+	}
+	// ---- R11.2 (assignment): the injector's assignment is replaced as a whole by each update
+	{
+		var probs []string
+		nW := 0
+		for _, fn := range side {
+			for _, in := range allInstrs(fn) {
+				switch x := in.(type) {
+				case *ssa.Store:
+					fa, ok := x.Addr.(*ssa.FieldAddr)
+					if !ok || engine.FieldOf(fa) != fCurTargets {
+						continue
+					}
+					nW++
+					switch v := x.Val.(type) {
+					case *ssa.Parameter, *ssa.MakeMap:
+					case *ssa.Const:
+					default:
+						probs = append(probs, "the assignment is set to "+short(p.Info(fn).T(v).S)+" in "+engine.FuncName(fn)+" ("+p.Rel(x.Pos())+"), not to the map of the update")
+					}
+				case *ssa.MapUpdate:
+					if _, ok := loadOfField(x.Map, fCurTargets); ok {
+						probs = append(probs, "entries are written into the kept assignment in "+engine.FuncName(fn)+" ("+p.Rel(x.Pos())+"): jobs missing from a later update keep their earlier targets")
+					}
+				}
+			}
+		}
+		r.Check(len(probs) == 0 && nW > 0, "R11.2-values", "injector assignment", "who-may-write table of Injector.curTargets", "replaced as a whole by the map of each update (never merged into)", strings.Join(probs, "; "))
 	}
 	// ---- R11.3 other writes to Config + freshness
 	{
@@ -721,3 +765,15 @@ func checkJobAppend(p *engine.Prog, r *engine.Report, fn *ssa.Function, st *ssa.
 }
 
 func controlsC11(p *engine.Prog) []Control { return nil }
+
+// rootAllocOf2 walks a chain of field addresses down to the pointer they start from.
+func rootAllocOf2(a ssa.Value) ssa.Value {
+	for d := 0; d < 8; d++ {
+		fa, ok := a.(*ssa.FieldAddr)
+		if !ok {
+			return a
+		}
+		a = fa.X
+	}
+	return a
+}
